@@ -48,9 +48,21 @@ CHECKS = {
  "C17": ("exploration", "call-log monitor: recording bowl and recording target pool checked against the whitelist and against references computed from the independently decoded patch; all 2^n subsets for n <= 8",
          "Patches mixing every series kind; every subset (or structured + random subsets above 8 files), nil whitelist, stop/resume on the same patcher; touched count, bowl calls, file bytes, old-build read set.",
          "A file resumed after a stop may ask for its writer again.", "§5 C17"),
+ "C06": ("fault_enumeration", "fault enumeration x forced and perturbed schedules at build-tag hooks in validator/healer; independent tree oracle after return; quiescence-based hang detector; race detector pass (thorough)",
+         "Every damage class (incl. subtree-hiding kind swaps, emptied/missing directory) is healed from a zip made by wharf under validator-first, healer-first and seeded perturbed schedules with GOMAXPROCS 1/4/16; all signed entries must be exact afterwards and AssertValid nil; a valid directory must stay untouched (inode/mtime/checksum). The evidence counts runs where a hidden child was checked before / after its parent was healed; a run that saw only one order is inconclusive.",
+         "Schedule space is sampled, not enumerated; extra unsigned files may remain.", "§5 C06"),
+ "C15": ("exploration", "determinism monitor (byte equality of patch/signature/optimizer output across runs under perturbed read slicing, sinks, bsdiff hooks and GOMAXPROCS 1/2/4/16) + Go race detector as a deciding oracle",
+         "Each pair is diffed R times with a different controller seed per run and optimized R times per parameter set; any byte difference is a violation; the same reduced list runs under -race and every de-duplicated report with a frame in the differ/optimizer pipelines is a violation.",
+         "Race detector sees executed interleavings only; map order sampled by repetition.", "§5 C15"),
+ "C16": ("fault_enumeration", "fault/cancellation-instant enumeration at build-tag hooks + quiescence-based deadlock detector over goroutine dumps; independent truth for the fail-fast verdict; forced cancel-inside-healer schedule",
+         "Builds up to 2500 directories / 1300 files with 1023/1024/1025 wounds; consumers fail-fast, wounds file (good / missing dir / /dev/full), printer, healer (good / missing / corrupted archive); cancellation before the call, at directory checks, at the main select and file start of every file, after queueing, before closing the wound channel, inside the healer between its context check and queueing, and from OnProgress callbacks. Validate must return; fail-fast nil implies the tree really matches.",
+         "Leftover goroutines are reported, not judged.", "§5 C16"),
  "C18": ("exploration", "reference-model monitor: block-wise truth computed by the harness; inner pool records every byte; wound/marker log checked for order, tiling and exactness",
          "Signed sizes around block multiples, written data differing in every subset of blocks / deleted / duplicated / swapped / extended / prefixes, all write slicings, error mode (stop-and-close and keep-writing drivers) and wound mode (raw and aggregated).",
          "Ranges of wounds beyond the signed block count are not judged.", "§5 C18"),
+ "C19": ("exploration", "independent tree oracle + entry-count oracle from the standard library reader; crash-state snapshots inside OnEntryDone with forced out-of-order completion through a harness io.ReaderAt; race detector as a deciding oracle for the archiver",
+         "Trees with empty dirs, symlinks, 600 tiny files, MiB-sized files among tiny ones; zip (both producers) and tar; worker counts -1 and 1..16; resumed extraction from snapshots taken at enumerated completion points must end complete with counts equal to the entries not skipped; -race pass with 2/4/16 workers.",
+         "Crash = snapshot of resume file then tree.", "§5 C19"),
 }
 PENDING = {}
 
